@@ -822,10 +822,74 @@ def gen_sections(repo):
     want = "tuple((plugins[plugin_name]forplugin_nameintoposort_flatten(dependencies,sort=False)ifplugin_nameinplugins))"
     if not isinstance(r, ast.Return) or src(r.value) != want:
         fail("return tuple(plugins[plugin_name] for plugin_name in toposort_flatten(dependencies, sort=False) if plugin_name in plugins)", r)
+    # ---- load_configuration (config/mapping.py): order of the phases, the two tests of the digest loop
+    with open(os.path.join(repo, "src", "cobald", "daemon", "config", "mapping.py")) as fh:
+        tree2 = ast.parse(fh.read())
+    fn = find_function(tree2, "load_configuration")
+    if [a.arg for a in fn.args.args] != ["config_data", "plugins"]:
+        fail("load_configuration(config_data, plugins)", fn)
+    b = [x for x in fn.body if not (isinstance(x, ast.Expr) and isinstance(x.value, ast.Constant))]
+    if not b or not isinstance(b[-1], ast.Return) or src(b[-1].value) != "content":
+        fail("load_configuration: return content", fn)
+    b = b[:-1]
+    phases, missing, store = [], None, None
+
+    def is_raise_conf(x):
+        return (isinstance(x, ast.Raise) and isinstance(x.exc, ast.Call) and src(x.exc.func) == "ConfigurationError")
+
+    i = 0
+    while i < len(b):
+        x = b[i]
+        if (isinstance(x, ast.Try) and [src(y) for y in x.body] == ["logging_mapping=config_data.pop('logging')"] and len(x.handlers) == 1
+                and src(x.handlers[0].type) == "KeyError" and [type(y) for y in x.handlers[0].body] == [ast.Pass] and not x.finalbody
+                and [src(y) for y in x.orelse] == ["configure_logging(logging_mapping)"]):
+            phases.append("PLogging")
+            i += 1
+        elif (src(x) == "unmatched=config_data.keys()-{plugin.sectionforplugininplugins}" and i + 1 < len(b)
+              and isinstance(b[i + 1], ast.If) and src(b[i + 1].test) == "unmatched" and not b[i + 1].orelse
+              and len(b[i + 1].body) == 1 and is_raise_conf(b[i + 1].body[0])):
+            phases.append("PValidate")
+            i += 2
+        elif (src(x) == "content={}" and i + 1 < len(b) and isinstance(b[i + 1], ast.For) and src(b[i + 1].target) == "plugin"
+              and src(b[i + 1].iter) == "plugins" and not b[i + 1].orelse and len(b[i + 1].body) == 1 and isinstance(b[i + 1].body[0], ast.Try)):
+            t = b[i + 1].body[0]
+            ok = ([src(y) for y in t.body] == ["section_data=config_data[plugin.section]"] and len(t.handlers) == 1
+                  and src(t.handlers[0].type) == "KeyError" and not t.finalbody and len(t.handlers[0].body) == 1 and len(t.orelse) == 2
+                  and src(t.orelse[0]) == "plugin_content=plugin.digest(section_data)")
+            if not ok or missing is not None:
+                fail("load_configuration: the digest loop", t)
+            h = t.handlers[0].body[0]
+            if isinstance(h, ast.If) and src(h.test) == "plugin.required" and not h.orelse and len(h.body) == 1 and is_raise_conf(h.body[0]):
+                missing = "MRequired"
+            elif is_raise_conf(h):
+                missing = "MAlways"
+            elif isinstance(h, ast.Pass):
+                missing = "MNever"
+            else:
+                fail("load_configuration: what happens on a missing section", h)
+            st = t.orelse[1]
+            if isinstance(st, ast.If) and not st.orelse and [src(y) for y in st.body] == ["content[plugin]=plugin_content"]:
+                if src(st.test) == "plugin_contentisnotNone":
+                    store = "SNotNone"
+                elif src(st.test) == "plugin_content":
+                    store = "STruthy"
+                else:
+                    fail("load_configuration: when a digest result is kept", st)
+            elif src(st) == "content[plugin]=plugin_content":
+                store = "SAlways"
+            else:
+                fail("load_configuration: when a digest result is kept", st)
+            phases.append("PDigest")
+            i += 2
+        else:
+            fail("load_configuration: unexpected statement %s" % src(x)[:60], x)
+    if missing is None or phases.count("PDigest") != 1:
+        fail("load_configuration: exactly one digest loop", fn)
     return "\n".join([
-        "(* GENERATED on every run by py2coq from src/cobald/daemon/core/config.py -- do not edit *)",
-        "From Cobald Require Import model.Sections kit.SectionsIR.", "",
-        "Definition gen_dparams : dparams := mkDparams %s %s %s." % (init, invert, key_is_other), ""])
+        "(* GENERATED on every run by py2coq from src/cobald/daemon/core/config.py and config/mapping.py -- do not edit *)",
+        "From Coq Require Import List.", "From Cobald Require Import model.Sections kit.SectionsIR.", "Import ListNotations.", "",
+        "Definition gen_dparams : dparams := mkDparams %s %s %s." % (init, invert, key_is_other),
+        "Definition gen_lparams : lparams := mkLparams [%s] %s %s." % ("; ".join(phases), missing, store), ""])
 
 
 def gen_services(repo):
